@@ -232,6 +232,8 @@ EXTRA = [
      "box, pin/hub points, output name, drawing order; get_floorplan_plot observed through a recording ImageDraw stub and judged by TLC"),
     ("FLOORSET", ["C15", "C19"], "TLA+ spec FloorSet: a FloorSet instance (blocks, pins, b2b/p2b connections, density) and the FPEF/DIEF design "
      "its converter must produce (kinds, areas, terminals in both modes, nets, density-scaled weights, die); FloorSetInstance run and judged by TLC"),
+    ("UTILS", ["C04", "C05", "C19"], "TLA+ spec Utils: strings as sequences of character classes; identifier grammar, Python float-literal grammar and "
+     "read_yaml's text-vs-file rule as per-character state machines checked against declarative grammars; frame.utils functions judged by TLC"),
     ("NETAPI", ["C04", "C05", "C13"], "TLA+ spec NetApi: the loaded Netlist/Module as a mutable object: mutators, cached views, coherence"),
 ]
 
